@@ -8,7 +8,8 @@ ID = 'C12'
 LEAN_MODULES = ['Proofs.C12']
 REQUIRED = ['C12.segs_partition', 'C12.segs_nonempty', 'C12.segs_no_internal_wrap',
             'C12.segs_boundaries_are_wraps', 'C12.labels_sequential', 'C12.cv_length',
-            'C12.cv_values', 'C12.cv_all_cover', 'C12.cv_no_wrap_none', 'C12.cv_label_block']
+            'C12.cv_values', 'C12.cv_all_cover', 'C12.cv_no_wrap_none', 'C12.cv_label_block',
+            'C12.code_model_refines', 'C12.code_model_all_cover', 'C12.code_model_no_wrap']
 TRUSTED = ['wrap_phase (x % 2pi) is an oracle: phases above 2pi are wrapped by the real emd.utils.wrap_phase before they reach the model',
            'float subtraction in |diff(phase)| > phase_step is compared with exact subtraction; cases within 1e-9 of the threshold are skipped and counted']
 ASSUMPTIONS = ['multi-column input is processed column by column (checked: each column is compared with the model separately)']
